@@ -86,6 +86,17 @@ func (in *Interp) branch(c *Term) bool {
 		return dir
 	}
 	in.stats.Branches++
+	// syntactic shortcut: the condition (or its negation) is already a conjunct of the path condition
+	if in.known(c) {
+		in.stats.Shortcuts++
+		in.trace = append(in.trace, Decision{N: 1, Kind: "br", Dir: +1})
+		return true
+	}
+	if in.known(in.tc.Not(c)) {
+		in.stats.Shortcuts++
+		in.trace = append(in.trace, Decision{N: 1, Kind: "br", Dir: -1})
+		return false
+	}
 	rt := in.solver.Check(in.st.pc, c)
 	if rt == Unknown {
 		panic(inconclusive("solver unknown on branch feasibility"))
@@ -118,7 +129,54 @@ func (in *Interp) addPC(c *Term, dir bool) {
 	if !dir {
 		c = in.tc.Not(c)
 	}
+	in.pushPC(c)
+}
+
+func (in *Interp) pushPC(c *Term) {
 	in.st.pc = append(in.st.pc, c)
+	in.learn(c)
+}
+
+// learn records the literal conjuncts implied by c for the syntactic shortcut.
+func (in *Interp) learn(c *Term) {
+	if in.st.facts == nil {
+		in.st.facts = map[*Term]bool{}
+	}
+	in.st.facts[c] = true
+	switch c.op {
+	case OpAnd:
+		for _, a := range c.args {
+			in.learn(a)
+		}
+	case OpNot:
+		if c.args[0].op == OpOr {
+			for _, a := range c.args[0].args {
+				in.learn(in.tc.Not(a))
+			}
+		}
+	}
+}
+
+func (in *Interp) known(c *Term) bool {
+	if in.st.facts[c] {
+		return true
+	}
+	if c.op == OpAnd {
+		for _, a := range c.args {
+			if !in.known(a) {
+				return false
+			}
+		}
+		return true
+	}
+	if c.op == OpOr {
+		for _, a := range c.args {
+			if in.known(a) {
+				return true
+			}
+		}
+	}
+	return false
 }
 
 // assume adds c to the path condition; ends the path when infeasible.
@@ -131,7 +189,11 @@ func (in *Interp) assume(c *Term) {
 	}
 	if in.replaying() {
 		in.trace = append(in.trace, in.prefix[len(in.trace)])
-		in.st.pc = append(in.st.pc, c)
+		in.pushPC(c)
+		return
+	}
+	if in.known(c) {
+		in.trace = append(in.trace, Decision{N: 1, Kind: "assume"})
 		return
 	}
 	r := in.solver.Check(in.st.pc, c)
@@ -142,7 +204,7 @@ func (in *Interp) assume(c *Term) {
 		panic(pathEndSig{"assume infeasible"})
 	}
 	in.trace = append(in.trace, Decision{N: 1, Kind: "assume"})
-	in.st.pc = append(in.st.pc, c)
+	in.pushPC(c)
 }
 
 // ---------------------------------------------------------------- transitions
